@@ -143,6 +143,11 @@ type leafCtx struct {
 	fileDeps   map[string]bool   // Gen modules of the leaves called
 	aliasOf    map[string]string // local name -> the slice parameter it is another name for
 	madeHere   map[string]bool   // byte buffers created by make in this function (capacity = length)
+
+	// eighth generation (leaf8.go)
+	logVars  map[string]bool // parameters of type *slog.Logger (dropped)
+	recvName string          // the receiver's name ("" = a plain function)
+	leanSelf string          // Lean name of the definition being translated
 }
 
 func (c *leafCtx) fail(format string, a ...any) {
@@ -190,6 +195,13 @@ func (c *leafCtx) leanType(e ast.Expr) string {
 	if se, ok := e.(*ast.SelectorExpr); ok {
 		if id, ok := se.X.(*ast.Ident); ok && id.Name == "context" && se.Sel.Name == "Context" && c.gen7 {
 			return "Ctx"
+		}
+	}
+	if st, ok := e.(*ast.StarExpr); ok { // *T for a struct handled through Go.Ref (leaf8.go)
+		if id, ok := st.X.(*ast.Ident); ok {
+			if _, isRef := refStructs[c.dir+":"+id.Name]; isRef {
+				return "R_" + id.Name
+			}
 		}
 	}
 	if st, ok := e.(*ast.StarExpr); ok { // *[]T: the callee may reslice / replace the slice: modelled with its capacity
@@ -423,6 +435,12 @@ func leanTypeName(t string) string {
 	}
 	if strings.HasPrefix(t, "C_") {
 		return "(Go.Slice " + leanTypeName(strings.TrimPrefix(t, "C_")) + ")"
+	}
+	if strings.HasPrefix(t, "R_") {
+		return "(Option (Go.Ref S_" + strings.TrimPrefix(t, "R_") + "))"
+	}
+	if strings.HasPrefix(t, "F:") {
+		return strings.TrimPrefix(t, "F:")
 	}
 	if strings.HasPrefix(t, "M:") {
 		parts := strings.Split(t, ":")
@@ -912,6 +930,9 @@ func assigned(stmts []ast.Stmt, set map[string]bool) {
 }
 
 func isPanic(s ast.Stmt) bool {
+	if _, fatal := isFatal(s); fatal {
+		return true
+	}
 	if es, ok := s.(*ast.ExprStmt); ok {
 		if ce, ok := es.X.(*ast.CallExpr); ok {
 			if id, ok := ce.Fun.(*ast.Ident); ok && id.Name == "panic" {
@@ -1318,7 +1339,12 @@ func structFields(c0 *leafCtx, structs map[string][][2]string, name string, st *
 	var fs [][2]string
 	for _, fl := range st.Fields.List {
 		if _, ptr := fl.Type.(*ast.StarExpr); ptr {
-			continue // pointers (shared, possibly cyclic state) are outside the subset
+			if rt := c0.leanType(fl.Type); strings.HasPrefix(rt, "R_") { // pointer to an immutable struct: Go.Ref (leaf8.go)
+				for _, n := range fl.Names {
+					fs = append(fs, [2]string{n.Name, rt})
+				}
+			}
+			continue // other pointers (shared, possibly cyclic state) are outside the subset
 		}
 		lt := c0.leanType(fl.Type)
 		if at, ok := fl.Type.(*ast.ArrayType); ok && at.Len == nil && len(fl.Names) == 1 && capFields[c0.dir+":"+name+"."+fl.Names[0].Name] {
@@ -1588,9 +1614,13 @@ func emitLeaves(repo string, parsed map[string][]*ast.File, fset *token.FileSet,
 			changed = false
 			for _, n := range names {
 				for _, f := range structs[n] {
-					if strings.HasPrefix(f[1], "S_") && !used[strings.TrimPrefix(f[1], "S_")] {
-						used[strings.TrimPrefix(f[1], "S_")] = true
-						names = append(names, strings.TrimPrefix(f[1], "S_"))
+					ft := f[1]
+					if strings.HasPrefix(ft, "R_") {
+						ft = "S_" + strings.TrimPrefix(ft, "R_")
+					}
+					if strings.HasPrefix(ft, "S_") && !used[strings.TrimPrefix(ft, "S_")] {
+						used[strings.TrimPrefix(ft, "S_")] = true
+						names = append(names, strings.TrimPrefix(ft, "S_"))
 						changed = true
 					}
 				}
@@ -1599,7 +1629,7 @@ func emitLeaves(repo string, parsed map[string][]*ast.File, fset *token.FileSet,
 		sort.Slice(names, func(i, j int) bool { // a struct after the structs it contains
 			dep := func(a, b string) bool {
 				for _, f := range structs[a] {
-					if f[1] == "S_"+b {
+					if f[1] == "S_"+b || f[1] == "R_"+b {
 						return true
 					}
 				}
